@@ -75,6 +75,33 @@ class Ctx:
         self.gen_units: list[dict] = []
         self.notes: list[str] = []
 
+    def known_records(self):
+        recs = []
+        kf = VERIF / "known_findings.jsonl"
+        if kf.exists():
+            for line in kf.read_text().splitlines():
+                line = line.strip()
+                if line and not line.startswith("#"):
+                    rec = json.loads(line)
+                    if rec.get("status") == "known" and rec.get("property") == self.pid:
+                        recs.append(rec)
+        return recs
+
+    def is_known(self, key, observed) -> bool:
+        return any(r.get("key") == key and _fp_match(r.get("observed"), observed) for r in self.known_records())
+
+    def broken_tie(self, what: str, err, candidates: list[tuple]):
+        """The translator / model tie is broken (`err`). `candidates` are failures of the property found on the
+        implementation by the search: (key, observed, text, replay). The first one that is not a listed known finding
+        becomes the replay of the violation; if there is none the violation is reported as no-failing-input-found."""
+        for key, observed, text, replay in candidates:
+            if not self.is_known(key, observed):
+                rp = dict(replay or {})
+                rp["broken_tie"] = f"{what}: {err}"
+                self.fail(what, key, observed, f"{text}  [found while {what} no longer checks: {err}]", rp)
+                return
+        self.fail(what, f"{what}:{type(err).__name__}", None, f"{what} no longer checks: {err}", {"error": str(err)}, found_input=False)
+
     @property
     def quick(self):
         return self.tier == "quick"
